@@ -20,6 +20,9 @@ use tower::{Layer, ServiceExt};
 use crate::common::{CaseReport, Engine};
 use crate::engines::tlswire::{client_config, install_provider, is_tls_record_stream, server_config, SECRET};
 
+/// marker carried by requests over plain schemes (their bytes may be on the wire in the clear)
+pub const PUBLIC: &[u8] = b"PUBL1C-mark3r-0f-th3-cl13nt";
+
 pub const HOSTS: &[(&str, bool)] = &[
     ("example.com", true),
     ("a.test", true),
@@ -54,10 +57,22 @@ pub struct StackCase {
     /// first, then every call that rebuilds the builder - the TLS setting must survive all of them
     #[serde(default)]
     pub builder_order: u8,
+    /// scheme of each request of the sequence (cycled): 0 https, 1 wss, 2 http, 3 ws; empty = all https.
+    /// Plain schemes are routed to a plaintext server that answers for the same authority, so that
+    /// pooled connections of both kinds exist side by side.
+    #[serde(default)]
+    pub schemes: Vec<u8>,
 }
 
 impl StackCase {
     /// Host-header variant of every request of the case, in order
+    /// (scheme, secure?) of request `i`
+    pub fn scheme_of(&self, i: usize) -> (&'static str, bool) {
+        if self.schemes.is_empty() {
+            return ("https", true);
+        }
+        [("https", true), ("wss", true), ("http", false), ("ws", false)][self.schemes[i % self.schemes.len()] as usize % 4]
+    }
     pub fn variants(&self) -> Vec<u8> {
         let mut v = vec![self.host_header % 4];
         if self.second_request {
@@ -116,6 +131,8 @@ impl AsyncWrite for RecDuplex {
 pub struct RecTransport {
     client: DuplexClient,
     wire: Arc<Mutex<Vec<u8>>>,
+    /// plaintext listener for http / ws requests and what was written on connections opened for them
+    plain: Option<(DuplexClient, Arc<Mutex<Vec<u8>>>)>,
 }
 impl tower::Service<http::request::Parts> for RecTransport {
     type Response = RecDuplex;
@@ -124,9 +141,12 @@ impl tower::Service<http::request::Parts> for RecTransport {
     fn poll_ready(&mut self, _cx: &mut Context<'_>) -> Poll<Result<(), Self::Error>> {
         Poll::Ready(Ok(()))
     }
-    fn call(&mut self, _req: http::request::Parts) -> Self::Future {
-        let client = self.client.clone();
-        let wire = self.wire.clone();
+    fn call(&mut self, req: http::request::Parts) -> Self::Future {
+        let is_plain = matches!(req.uri.scheme_str(), Some("http") | Some("ws"));
+        let (client, wire) = match (&self.plain, is_plain) {
+            (Some((pc, pw)), true) => (pc.clone(), pw.clone()),
+            _ => (self.client.clone(), self.wire.clone()),
+        };
         Box::pin(async move {
             let s = client.connect(1 << 16).await?;
             Ok(RecDuplex { inner: s, wire })
@@ -172,11 +192,13 @@ impl Engine for StackEngine {
         };
         let seen: Arc<Mutex<Seen>> = Default::default();
         let wire: Arc<Mutex<Vec<u8>>> = Default::default();
+        let plain_wire: Arc<Mutex<Vec<u8>>> = Default::default();
         let sni_seen: Arc<Mutex<Vec<Option<String>>>> = Default::default();
         let rt = tokio::runtime::Builder::new_current_thread().enable_time().start_paused(true).build().unwrap();
         let c2 = c.clone();
         let seen2 = seen.clone();
         let wire2 = wire.clone();
+        let plain_wire2 = plain_wire.clone();
         let sni2 = sni_seen.clone();
         let auth2 = authority.clone();
         type Out = (Vec<Result<(u16, bool), String>>, bool, Option<Result<u16, String>>);
@@ -197,13 +219,14 @@ impl Engine for StackEngine {
                             version: Some(parts.version),
                             host: parts.headers.get("host").and_then(|h| h.to_str().ok()).map(String::from).or_else(|| parts.uri.authority().map(|a| a.to_string())),
                             tls: parts.extensions.get::<TlsConnectionInfo>().cloned(),
-                            body_ok: b.len() == body_len + SECRET.len() && b.ends_with(SECRET),
+                            body_ok: (b.len() == body_len + SECRET.len() && b.ends_with(SECRET)) || (b.len() == body_len + PUBLIC.len() && b.ends_with(PUBLIC)),
                         };
                         seen.lock().unwrap().entries.push(entry);
                         Ok::<_, std::io::Error>(http::Response::new(hyperdriver::Body::from("served".to_string())))
                     }
                 });
                 let svc = hyperdriver::server::conn::tls::sni::ValidateSNI.layer(handler);
+                let svc2 = svc.clone();
                 let scfg = server_config(0, c2.alpn, sni2.clone());
                 let server = hyperdriver::Server::builder::<hyperdriver::Body>()
                     .with_incoming(incoming)
@@ -213,20 +236,26 @@ impl Engine for StackEngine {
                     .with_tls(scfg)
                     .with_tokio();
                 let server = tokio::spawn(async move { server.await.map_err(|e| e.to_string()) });
+                // the plaintext twin: same application behind the same middleware, no TLS
+                let (plain_client, plain_incoming) = hyperdriver::stream::duplex::pair();
+                let plain_server = hyperdriver::Server::builder::<hyperdriver::Body>().with_incoming(plain_incoming).with_auto_http().with_shared_service(svc2).with_tokio();
+                let plain_server = tokio::spawn(async move { plain_server.await.map_err(|e| e.to_string()) });
+                let route_plain = c2.mode % 4 == 0 && !c2.schemes.is_empty();
 
                 let make_client = |wire: Arc<Mutex<Vec<u8>>>| {
+                    let plain = route_plain.then(|| (plain_client.clone(), plain_wire2.clone()));
                     if c2.builder_order % 2 == 1 {
                         return hyperdriver::Client::builder()
                             .with_tls(client_config(c2.alpn))
                             .with_default_pool()
                             .with_body::<hyperdriver::Body, hyperdriver::Body>()
-                            .with_transport(RecTransport { client: client.clone(), wire })
+                            .with_transport(RecTransport { client: client.clone(), wire, plain })
                             .with_auto_http()
                             .without_redirects()
                             .build_service();
                     }
                     hyperdriver::Client::builder()
-                        .with_transport(RecTransport { client: client.clone(), wire })
+                        .with_transport(RecTransport { client: client.clone(), wire, plain })
                         .with_auto_http()
                         .with_tls(client_config(c2.alpn))
                         .with_default_pool()
@@ -234,14 +263,16 @@ impl Engine for StackEngine {
                         .build_service()
                 };
                 let request = |scheme: &str, seq: usize, variant: u8| {
+                    // requests over a secure scheme carry the secret marker, the others a public one
+                    let marker: &[u8] = if scheme == "https" || scheme == "wss" { SECRET } else { PUBLIC };
                     let mut body: Vec<u8> = (0..body_len).map(|i| b'a' + (i % 26) as u8).collect();
-                    body.extend_from_slice(SECRET);
+                    body.extend_from_slice(marker);
                     let mut b = http::Request::builder()
                         .method("POST")
                         .version(if c2.h2 { http::Version::HTTP_2 } else { http::Version::HTTP_11 })
-                        .uri(format!("{scheme}://{auth2}/{}?t={}", String::from_utf8_lossy(SECRET), String::from_utf8_lossy(SECRET)))
+                        .uri(format!("{scheme}://{auth2}/{}?t={}", String::from_utf8_lossy(marker), String::from_utf8_lossy(marker)))
                         .header("x-seq", seq)
-                        .header("x-secret", std::str::from_utf8(SECRET).unwrap());
+                        .header("x-secret", std::str::from_utf8(marker).unwrap());
                     match variant % 4 {
                         1 => b = b.header("host", HOSTS[c2.host as usize % HOSTS.len()].0.to_ascii_uppercase()),
                         2 => b = b.header("host", "evil.test"),
@@ -266,7 +297,7 @@ impl Engine for StackEngine {
                 match c2.mode % 4 {
                     0 => {
                         for (seq, variant) in c2.variants().into_iter().enumerate() {
-                            results.push(send(svc.clone(), request("https", seq, variant)).await);
+                            results.push(send(svc.clone(), request(c2.scheme_of(seq).0, seq, variant)).await);
                         }
                     }
                     1 => {
@@ -301,6 +332,7 @@ impl Engine for StackEngine {
                     Some(send(probe_svc, probe_req).await.map(|r| r.0))
                 };
                 drop(svc);
+                plain_server.abort();
                 server.abort();
                 (results, server_alive, probe)
             })
@@ -355,6 +387,12 @@ impl Engine for StackEngine {
                 if wire.windows(SECRET.len()).any(|w| w == SECRET) {
                     rep.violate("C12/fullstack-secret-in-the-clear", desc.clone());
                 }
+                // connections opened for http / ws carry their own requests in the clear, never those of
+                // https / wss requests to the same authority
+                let plain_bytes = plain_wire.lock().unwrap().clone();
+                if plain_bytes.windows(SECRET.len()).any(|w| w == SECRET) {
+                    rep.violate("C12/fullstack-secret-in-the-clear", format!("a request over a secure scheme was written on a plaintext connection opened for http/ws to the same authority; {desc}"));
+                }
                 let is_ip = host.starts_with('[') || host.parse::<std::net::Ipv4Addr>().is_ok();
                 // an HTTP/2 request over a connection that negotiated http/1.1 only is refused by the peer
                 let proto_conflict = c.h2 && negotiated_h1_only;
@@ -365,7 +403,22 @@ impl Engine for StackEngine {
                     // only HTTP/1 connections carry the foreign Host to the server
                     let host_hdr_mismatch = variant == 2 && !(c.h2 || negotiated_h2);
                     let reached: Option<&SeenEntry> = seen.entries.iter().find(|e| e.seq == seq);
-                    let rdesc = format!("request {seq} (Host variant {variant}) -> {result:?}; {desc}");
+                    let (scheme, secure) = c.scheme_of(seq);
+                    let rdesc = format!("request {seq} ({scheme}, Host variant {variant}) -> {result:?}; {desc}");
+                    if !secure {
+                        // plain scheme: must not be wrapped; nothing else is asserted for it here
+                        if reached.map(|e| e.tls.is_some()).unwrap_or(false) {
+                            rep.violate("C12/fullstack-plain-scheme-wrapped", rdesc.clone());
+                        }
+                        rep.class("plain-scheme-request-in-sequence");
+                        if !(matches!(result, Ok((200, true))) && reached.is_some()) {
+                            connection_unbroken = false;
+                        }
+                        continue;
+                    }
+                    if reached.map(|e| e.tls.is_none()).unwrap_or(false) {
+                        rep.violate("C12/fullstack-secure-request-not-wrapped", rdesc.clone());
+                    }
                     if reached.is_some() && !in_san {
                         rep.violate("C12/fullstack-served-despite-certificate-mismatch", rdesc.clone());
                     }
@@ -467,6 +520,7 @@ pub fn strategy() -> impl proptest::strategy::Strategy<Value = StackCase> {
         any::<bool>(),
         prop_oneof![2 => Just(vec![]), 3 => proptest::collection::vec(prop_oneof![3 => Just(0u8), 1 => Just(1u8), 2 => Just(2u8), 1 => Just(3u8)], 1..5)],
         0u8..2,
+        prop_oneof![2 => Just(vec![]), 1 => proptest::collection::vec(0u8..4, 1..5)],
     )
-        .prop_map(|(host, port, h2, alpn, host_header, mode, body, second_request, extra, builder_order)| StackCase { host, port, h2, alpn, host_header, mode, body, second_request, extra, builder_order })
+        .prop_map(|(host, port, h2, alpn, host_header, mode, body, second_request, extra, builder_order, schemes)| StackCase { host, port, h2, alpn, host_header, mode, body, second_request, extra, builder_order, schemes })
 }
